@@ -249,6 +249,9 @@ def build_grids(ks, mol):
 # ---------------------------------------------------------------------------------
 # calculator-level histories
 # ---------------------------------------------------------------------------------
+_SHARED_REFS = {}
+
+
 def g_size_probe(hist, gi):
     return (hist["grids"][gi].get("atom_grid") or [0, 0])[0] >= 200
 
@@ -387,7 +390,10 @@ def exec_ni_history(hist, rp):
     last_call = rp.setdefault("_last_call", {})  # filled for the process-fresh reference (popped by run_case)
     calcs = {}  # model -> ks   long-lived calculators
     gridobjs = {}  # (model-is-nldf, mol, grid) -> grids object (long-lived, shared between calls)
-    refs = {}
+    # fault enumeration re-runs one short history for every fault point: its fresh-object
+    # references are the same every time and are shared within the worker
+    refs = _SHARED_REFS.setdefault(json.dumps([hist["models"], hist["mols"], hist["grids"]], sort_keys=True), {}) if hist.get("share_refs") else {}
+    judge_from = int(hist.get("judge_from", 0))
 
     def reference(mi, k, gi, uks, j, scale=1.0):
         """fresh objects, nset = 1, default max_memory, one call, other allocator pattern"""
@@ -588,7 +594,7 @@ def exec_ni_history(hist, rp):
             last_call.setdefault("all", {})[step] = (last_call["op"], last_call["out"])
         stats["held_results_rechecked"] += 2
         for idx, j in enumerate(op["dms"]):
-            if op["alias"] == "sameab":
+            if op["alias"] == "sameab" or step < judge_from:
                 continue  # other input than the memoised reference; only the mutation check applies
             rref = reference(mi, k, gi, uks, j, scale)
             if rref == "rejected":
@@ -1646,7 +1652,76 @@ def process_fresh_reference(hist, last, rp):
     return viol, len(steps)
 
 
+# ---------------------------------------------------------------------------------
+# fault enumeration: every shallow fault point of the call that follows a configuration switch
+# ---------------------------------------------------------------------------------
+FAULTENUM_SEQS = [
+    {"settings": "nldf_j", "ev": "rbf", "mode": "SEP", "switch": "spin"},
+    {"settings": "sdmx", "ev": "rbf", "mode": "SEP", "switch": "spin"},
+    {"settings": "nldf_j_sdmx", "ev": "rbf", "mode": "SEP", "switch": "mol"},
+    {"settings": "nldf_i_l1", "ev": "rbf", "mode": "SEP", "switch": "spin_r"},
+    {"settings": "nldf_k", "ev": "rbf", "mode": "NPOL", "switch": "mol"},
+    {"settings": "sdmxg1", "ev": "rbf", "mode": "SEP", "switch": "spin_r"},
+    {"settings": "sl_npa", "ev": "rbf", "mode": "SEP", "switch": "spin"},
+    {"settings": "nldf_ij", "ev": "spline+rbf", "mode": "SEP", "switch": "grid"},
+]
+
+
+def faultenum_history(seq, k):
+    """call under configuration A, switch, the call under configuration B fails at its k-th
+    shallow line (package frames at most 3 deep: where calculators and generators record what
+    they are set up for - a failure inside any deeper callee surfaces at one of these lines),
+    then the same call again on the same objects"""
+    m = {"settings": seq["settings"], "ev": seq["ev"], "mode": seq["mode"], "version": 1, "seed": 5, "plan_type": "gaussian", "interp": "onsite_direct", "xmix": 0.5}
+    base = {"op": "call", "model": 0, "mol": 0, "grid": 0, "uks": False, "dms": [0], "max_memory": 2000, "calc": 0, "container": "single", "alias": None}
+    mols = [{"name": "H2", "basis": "sto-3g", "dseed": 3}]
+    grids = [{"atom_grid": [14, 50]}]
+    sw = seq["switch"]
+    if sw == "spin":
+        a, b, mid = dict(base), dict(base, uks=True), []
+    elif sw == "spin_r":
+        a, b, mid = dict(base, uks=True), dict(base), []
+    elif sw == "mol":
+        mols.append({"name": "H2", "basis": "sto-3g", "dseed": 3, "shift": [0.1, -0.2, 0.15]})
+        a, b, mid = dict(base), dict(base, mol=1), [{"op": "regrid_inplace", "from_mol": 0, "to_mol": 1, "grid": 0}]
+    else:
+        grids.append({"atom_grid": [20, 86]})
+        a, b, mid = dict(base), dict(base, grid=1), []
+    ops = [a] + mid + [dict(b, fault=k, fault_shallow=3), dict(b)]
+    return {"kind": "ni", "models": [m], "mols": mols, "grids": grids, "perturb": 0xA5, "ops": ops, "scribble": False, "near_dup": False, "share_refs": True, "judge_from": len(ops) - 1}
+
+
+def run_faultenum(spec):
+    viol, stats, dg = [], Counter(), Digest()
+    seen = set()
+    for k in range(spec["k0"], spec["k1"]):
+        hist = faultenum_history(FAULTENUM_SEQS[spec["seq"]], k)
+        rp = {"property": PROP, "engine": "histsim", "case": {"hist": hist}}
+        try:
+            v, st_, d_ = exec_ni_history(hist, rp)
+        finally:
+            set_perturb(0)
+        rp.pop("_last_call", None)
+        fop = [o for o in hist["ops"] if o.get("fault")][0]
+        if not fop.get("fault_site"):
+            stats["fault_points_beyond_end_of_call"] += 1
+            break  # k is beyond the last shallow line of the call: this sequence is exhausted
+        stats["fault_points_enumerated"] += 1
+        stats["comparisons"] += st_["comparisons"]
+        stats["reference_calls"] += st_["reference_calls"]
+        dg.add(k, fop["fault_site"][0])
+        for x in v:
+            if x["key"] not in seen:
+                seen.add(x["key"])
+                x["detail"] = "fault point %d (%s line %d) after switch '%s': %s" % (k, fop["fault_site"][0], fop["fault_site"][1], FAULTENUM_SEQS[spec["seq"]]["switch"], x["detail"])
+                viol.append(x)
+    stats["hist_faultenum"] += 1
+    return {"digest": dg.hex(), "nontrivial": stats["fault_points_enumerated"] > 0, "violations": viol, "stats": dict(stats), "sample": {"kind": "faultenum", "seq": FAULTENUM_SEQS[spec["seq"]], "k": [spec["k0"], spec["k1"]]}, "tuples": []}
+
+
 def run_case(spec):
+    if spec.get("hkind") == "faultenum":
+        return run_faultenum(spec)
     hist = spec.get("hist") or gen_history(spec["hkind"], spec["seed"])
     rp = {"property": PROP, "engine": "histsim", "case": {"hist": hist, "hkind": spec.get("hkind"), "seed": spec.get("seed"), "proc_ref": bool(spec.get("proc_ref"))}}
     try:
@@ -1717,6 +1792,15 @@ def plan(tier, seed, args):
         cases.append({"hkind": "plan", "seed": derive(seed, PROP, "plan", i) % 10**9})
     for i in range(n_gen):
         cases.append({"hkind": "ks", "seed": derive(seed, PROP, "ks", i) % 10**9})
+    # enumerated fault points (not seeded): the set-up phase of the call in quick, the whole
+    # call in thorough
+    if args.cases is None:
+        nseq, npts, chunk = (3, 30, 5) if tier == "quick" else (len(FAULTENUM_SEQS), 900, 30)
+        fe = []
+        for q in range(nseq):
+            for k0 in range(1, npts + 1, chunk):
+                fe.append({"hkind": "faultenum", "seq": q, "k0": k0, "k1": min(k0 + chunk, npts + 1)})
+        cases = fe + cases  # the slow ones first
     return cases
 
 
@@ -1836,6 +1920,7 @@ def coverage(done, tier):
             "earlier_results_rechecked_after_later_calls": tot["held_results_rechecked"],
             "allocator_patterns": {k[8:]: v for k, v in tot.items() if k.startswith("perturb_")},
             "calls_interrupted_by_injected_failure": tot["calls_interrupted_by_injected_failure"],
+            "fault_points_enumerated_after_a_configuration_switch": tot["fault_points_enumerated"],
             "everything_dropped_and_garbage_collected": tot["everything_dropped_and_collected"] + tot["grids_dropped_and_collected"],
             "calls_recomputed_in_a_fresh_process_in_reverse_order": tot["process_fresh_references"],
             "injected_failure_sites": {k[11:]: v for k, v in sorted(tot.items()) if k.startswith("fault_site_")},
